@@ -420,3 +420,30 @@ def tlaps_proof(rep, prop, module, theorem):
     if module == "DefragLen":
         rep.cov["tlaps"] = rep.cov["tlaps_proofs"][-1]
     shutil.rmtree(os.path.join(pd, ".tlacache"), ignore_errors=True)
+
+
+def site_sweep(rep, binary, prop, keep=None, run="sites"):
+    """Preserved(site) (MC_C11): TLC checks the statement on the specification and emits the templates; the crate is then
+    evaluated on the WHOLE domain of every kept site (256 or 65536 values) and must return each value unchanged."""
+    d, res, sites = vlib.tlc_chunked(prop, run, "MC_C11", nchunks=6, out_name="sites")
+    rep.add_tlc("MC_C11(%s)" % run, res)
+    sites = [s for s in sites if keep is None or keep(s)]
+    if not sites:
+        raise vlib.ToolError("no site selected")
+    sin, sout = os.path.join(d, "sites.in.ndjson"), os.path.join(d, "sites.out.ndjson")
+    vlib.write_ndjson(sin, sites)
+    vlib.run_harness(binary, ["sweep-sites", sin, sout])
+    for s, o in zip(sites, vlib.read_ndjson(sout)):
+        rep.count(o["domain"])
+        rep.nontrivial((s["site"], o["domain"]))
+        rep.nontrivial((s["site"], "ok", o["ok"]))
+        if o["ok"] != o["domain"]:
+            first = o["bad"][0]
+            rep.violation("site:%s:x=%s" % (s["site"], first["x"]),
+                          {"id": s["site"], "fn": s["fn"], "a": s["a"], "note": {"site": s["site"], "x": first["x"]},
+                           "input": [{"lit": s["pre"] + ([first["x"] >> 8] if s["w"] == 2 else []) + [first["x"] & 255] + s["suf"], "fill": [0, 0, 0]}],
+                           "expect": {"k": "ok"}, "pin": "none", "path": s["path"]},
+                          first["x"], first["observed"],
+                          "%d of %d values of the field are not accepted and returned unchanged (first: %s)" % (o["domain"] - o["ok"], o["domain"], first["x"]))
+    rep.cov["traces_validated_against_impl"] += len(sites)
+    return sites
